@@ -212,9 +212,12 @@ def spy_evaluate(mps, params, obs_user):
 
     for n in names:
         setattr(MPS, n, mk(n))
+    raised = None
     try:
         res = RecResults(log)
         mps.evaluate_observables(params, res, 0)
+    except Exception as e:  # noqa: BLE001  (the real code raised: reported through the tie, never a harness crash)
+        raised = type(e).__name__
     finally:
         for n in names:
             setattr(MPS, n, orig[n])
@@ -236,6 +239,8 @@ def spy_evaluate(mps, params, obs_user):
             else:
                 out.append(f"L{row}:{oid}@{nshift}")
             last_eval = None
+    if raised:
+        out.append("raised:" + raised)
     return "ev " + " ".join(out), res.store
 
 
@@ -279,7 +284,10 @@ def run_evalobs(inp):
             probs.append(f"evaluate_observables raised {exc}")
         else:
             for row, o in enumerate(params.sorted_observables):
-                j = ids[id(o)]
+                j = ids.get(id(o))
+                if j is None:
+                    probs.append(f"sorted_observables[{row}] is not one of the user's observable objects: the user's objects never receive a value")
+                    continue
                 ok, d = value_matches(pspecs[j], res[row, 0], want[order[j]])
                 worst = max(worst, d if np.isfinite(d) else 0.0)
                 if not ok:
@@ -288,10 +296,7 @@ def run_evalobs(inp):
                 seen_by_obj.setdefault(order[j], []).append(res[row, 0])
         if any(not np.array_equal(a, b) for a, b in zip(before, mps.tensors)):
             probs.append("evaluate_observables modified the state")
-        key = None
-        if probs and all(pspecs[ids[id(o)]]["k"] in ("ent", "sch") for o in params.sorted_observables if ("object #%d " % ids[id(o)]) in " ".join(probs)):
-            key = None
-        out.append({"req": f"walk | {line}", "impl": trace, "kind": "evaluate-walk", "key": key,
+        out.append({"req": f"walk | {line}", "impl": trace, "kind": "evaluate-walk",
                     "oracle": {"ok": not probs, "detail": "; ".join(probs)[:600] or f"worst deviation {worst:.2e}"},
                     "sig": f"walk:{line}", "nontrivial": len(obs) > 1})
     return out
@@ -328,36 +333,39 @@ def run_values(inp):
         if not d <= tol:
             probs.append(f"{name}: got {got}, dense {want}")
 
-    chk("scalar_product(a,b)", a.scalar_product(b), np.vdot(va, vb))
-    chk("scalar_product(a,a)", a.scalar_product(a), 1.0)
-    chk("norm()", a.norm(), np.vdot(va, va).real)
-    chk("norm(0) at the centre", a.norm(0), np.vdot(va, va).real)
-    for _ in range(3):
-        bits = "".join(rng.choice("01") for _ in range(L))
-        chk(f"project_onto_bitstring({bits})", a.project_onto_bitstring(bits), dense_value({"k": "pvm", "bits": bits}, va, L))
-    # unnormalised state: overlap and norm scale, bitstring probability is that of the vector as it is
-    c = copy.deepcopy(a)
-    c.tensors[0] = c.tensors[0] * 1.5
-    vc = copy.deepcopy(c).to_vec()
-    chk("norm() of 1.5*psi", c.norm(), np.vdot(vc, vc).real)
-    chk("scalar_product(1.5 psi, b)", c.scalar_product(b), np.vdot(vc, vb))
-    for i in range(L):
-        m = copy.deepcopy(a)
-        m.set_canonical_form(i)
-        spec1 = {"k": "l1", "gate": rng.choice(ONE), "site": i, "hs": rng.randrange(1 << 20)}
-        chk(f"expect({spec1['gate']}@{i}) centre at {i}", m.expect(make_obs(spec1)), dense_value(spec1, va, L))
-        if i + 1 < L:
-            spec2 = {"k": "l2", "gate": rng.choice(TWO), "site": i, "hs": rng.randrange(1 << 20)}
-            chk(f"expect({spec2['gate']}@{i},{i + 1}) centre at {i}", m.expect(make_obs(spec2)), dense_value(spec2, va, L))
-            chk(f"local_expect two-site via list sites centre {i}", m.local_expect(make_obs(spec2), [i, i + 1]).real, dense_value(spec2, va, L))
-            chk(f"get_entropy([{i},{i + 1}]) centre at {i}", m.get_entropy([i, i + 1]), dense_value({"k": "ent", "site": i}, va, L))
-            ok, d = value_matches({"k": "sch"}, m.get_schmidt_spectrum([i, i + 1]), dense_value({"k": "sch", "site": i}, va, L))
-            worst = max(worst, d if np.isfinite(d) else 0.0)
-            if not ok:
-                probs.append(f"get_schmidt_spectrum([{i},{i + 1}]) centre at {i} differs from the dense spectrum by {d:.3e}")
-            m2 = copy.deepcopy(a)
-            m2.set_canonical_form(i + 1)
-            chk(f"get_entropy([{i},{i + 1}]) centre at {i + 1}", m2.get_entropy([i, i + 1]), dense_value({"k": "ent", "site": i}, va, L))
+    try:
+        chk("scalar_product(a,b)", a.scalar_product(b), np.vdot(va, vb))
+        chk("scalar_product(a,a)", a.scalar_product(a), 1.0)
+        chk("norm()", a.norm(), np.vdot(va, va).real)
+        chk("norm(0) at the centre", a.norm(0), np.vdot(va, va).real)
+        for _ in range(3):
+            bits = "".join(rng.choice("01") for _ in range(L))
+            chk(f"project_onto_bitstring({bits})", a.project_onto_bitstring(bits), dense_value({"k": "pvm", "bits": bits}, va, L))
+        # unnormalised state: overlap and norm scale, bitstring probability is that of the vector as it is
+        c = copy.deepcopy(a)
+        c.tensors[0] = c.tensors[0] * 1.5
+        vc = copy.deepcopy(c).to_vec()
+        chk("norm() of 1.5*psi", c.norm(), np.vdot(vc, vc).real)
+        chk("scalar_product(1.5 psi, b)", c.scalar_product(b), np.vdot(vc, vb))
+        for i in range(L):
+            m = copy.deepcopy(a)
+            m.set_canonical_form(i)
+            spec1 = {"k": "l1", "gate": rng.choice(ONE), "site": i, "hs": rng.randrange(1 << 20)}
+            chk(f"expect({spec1['gate']}@{i}) centre at {i}", m.expect(make_obs(spec1)), dense_value(spec1, va, L))
+            if i + 1 < L:
+                spec2 = {"k": "l2", "gate": rng.choice(TWO), "site": i, "hs": rng.randrange(1 << 20)}
+                chk(f"expect({spec2['gate']}@{i},{i + 1}) centre at {i}", m.expect(make_obs(spec2)), dense_value(spec2, va, L))
+                chk(f"local_expect two-site via list sites centre {i}", m.local_expect(make_obs(spec2), [i, i + 1]).real, dense_value(spec2, va, L))
+                chk(f"get_entropy([{i},{i + 1}]) centre at {i}", m.get_entropy([i, i + 1]), dense_value({"k": "ent", "site": i}, va, L))
+                ok, d = value_matches({"k": "sch"}, m.get_schmidt_spectrum([i, i + 1]), dense_value({"k": "sch", "site": i}, va, L))
+                worst = max(worst, d if np.isfinite(d) else 0.0)
+                if not ok:
+                    probs.append(f"get_schmidt_spectrum([{i},{i + 1}]) centre at {i} differs from the dense spectrum by {d:.3e}")
+                m2 = copy.deepcopy(a)
+                m2.set_canonical_form(i + 1)
+                chk(f"get_entropy([{i},{i + 1}]) centre at {i + 1}", m2.get_entropy([i, i + 1]), dense_value({"k": "ent", "site": i}, va, L))
+    except Exception as e:  # noqa: BLE001
+        probs.append(f"raised {type(e).__name__}: {e}")
     return {"req": None, "impl": None, "kind": "values", "oracle": {"ok": not probs, "detail": "; ".join(probs)[:600] or f"worst deviation {worst:.2e}"},
             "sig": f"values:{L}:{inp['sub'] % 9973}", "nontrivial": L > 1}
 
@@ -410,7 +418,7 @@ def _strong_run(circ, L, specs, threshold):
     obs = [make_obs(s) for s in specs]
     sp = StrongSimParams(obs, num_traj=1, threshold=threshold, show_progress=False)
     simulator.run(MPS(L, state="zeros"), build_circuit(circ, L), sp, None, parallel=False)
-    return {"results": [results_of(o) for o in obs], "sorted": [[id(o) for o in obs].index(id(x)) for x in sp.sorted_observables]}
+    return {"results": [results_of(o) for o in obs]}
 
 
 def run_strong(inp):
